@@ -331,7 +331,7 @@ pub fn run(case: &str, input: &str) -> String {
             let Some((game, es)) = parse_pl_write(&f) else { return "bad-case".into() };
             crate::alloc::measured(input.len(), move || guarded(move || run_pl_write(game, &es)))
         }
-        "apply" | "execlookup" | "bootdata" => crate::c17_io::run(&f),
+        "apply" | "applyfull" | "execlookup" | "bootdata" => crate::c17_io::run(&f),
         "leak" => crate::c17_leak::run(&f),
         _ => "bad-case".into(),
     }
